@@ -75,6 +75,12 @@ def run(ctx, res):
     base = {n: U.rand_bytes(rng, sz, 'uniform') for n, sz in U.REGION_SIZES}
     for i, (addr, ln) in enumerate(cases):
         regs = base if i % 4 else {n: U.rand_bytes(rng, sz) for n, sz in U.REGION_SIZES}
+        if i % 7 == 3:
+            # regions of equal size with equal contents (flags and music both cleared, both filled alike): still two regions
+            twin = rng.choice([bytes(0x100), b'\xff' * 0x100, U.rand_bytes(rng, 0x100)])
+            regs = dict(regs, gff=twin, music=twin)
+        if i % 7 == 5:
+            regs = dict(regs, gfx=regs['map'] * 2, sfx=(regs['gff'] * 17))       # larger regions built from the contents of smaller ones
         data = bytes(rng.randrange(1, 256) for _ in range(ln))
         if i % 3 == 0 and ln > 1 and addr + ln <= 0x4300:
             # data that repeats what memory already holds, except for its tail / its head / one byte (re-applying an edited dump)
@@ -96,6 +102,9 @@ def run(ctx, res):
     # sequences of writes (history): implementation vs flat spec
     for s in range(ctx.budget(20, 300)):
         regs = {n: U.rand_bytes(rng, sz) for n, sz in U.REGION_SIZES}
+        if s % 3 == 1:
+            twin = rng.choice([bytes(0x100), U.rand_bytes(rng, 0x100)])
+            regs = dict(regs, gff=twin, music=twin)
         g = U.make_game(regions=regs)
         f = bytearray(flat(regs))
         hist = []
